@@ -340,10 +340,22 @@ func watch(c *explore.Chooser) *explore.Case {
 	return cs
 }
 
+// cleaner: the background goroutine that is the only thing that ever removes an expired answer from the cache
+// must keep running: three rounds of store / let the TTL pass / wait for the eviction.
+func cleaner(c *explore.Chooser) *explore.Case {
+	rounds := 2 + c.Free(3, "rounds")
+	got := promapi.VerifCleanerRounds(rounds, 400)
+	cs := &explore.Case{Input: map[string]any{"rounds": rounds}, Key: fmt.Sprint("cleaner", rounds), Outcome: "cleaner"}
+	if got != rounds {
+		cs.Violate("cleaner: expired cache entries are no longer evicted", fmt.Sprintf("%d rounds of store / expire / wait: the background cleaner evicted the entry in %d of them (each round waited for 400 ticks of a reference ticker with the cleaner's interval)", rounds, got), cs.Input)
+	}
+	return cs
+}
+
 func main() {
 	explore.Main(&explore.Config{
 		Property: "C16", Level: "exploration",
-		Rule: "17 rule expressions (selectors on metrics m,n with =, !=, =~ matchers and an absent label value, inside sum(), rate(), binary operations, `or`, absent()) x presence patterns over the 6h look-back window for m{l=v}, m{l=w} (quick: always/never/first-half/second-half; thorough adds last-40-minutes-missing, intermittent, only-before-the-window) and n{l=v} x uptime metric with/without gaps x with/without a recording rule producing m x with/without a disable comment; the database is served over real HTTP by a Prometheus-compatible API backed by the vendored PromQL engine to the real FailoverGroup and promql/series check (3 slices per range probe); space watch: one long-lived client lints 5 expressions 14 times while the metric appears before iteration 1 or 2, the query cache running on a harness-owned clock (iterations every 1/4/7 minutes, collection every 2 minutes), clause (i) judged once the metric has been present for 10 minutes; oracle (i) a selector that currently returns series draws no promql/series problem, (ii) a metric with no sample in the window that nothing provides or exempts draws a Bug",
+		Rule: "17 rule expressions (selectors on metrics m,n with =, !=, =~ matchers and an absent label value, inside sum(), rate(), binary operations, `or`, absent()) x presence patterns over the 6h look-back window for m{l=v}, m{l=w} (quick: always/never/first-half/second-half; thorough adds last-40-minutes-missing, intermittent, only-before-the-window) and n{l=v} x uptime metric with/without gaps x with/without a recording rule producing m x with/without a disable comment; the database is served over real HTTP by a Prometheus-compatible API backed by the vendored PromQL engine to the real FailoverGroup and promql/series check (3 slices per range probe); space cleaner: the real background cacheCleaner on a fake clock must evict an expired entry in each of 2-4 consecutive rounds; space watch: one long-lived client lints 5 expressions 14 times while the metric appears before iteration 1 or 2, the query cache running on a harness-owned clock (iterations every 1/4/7 minutes, collection every 2 minutes), clause (i) judged once the metric has been present for 10 minutes; oracle (i) a selector that currently returns series draws no promql/series problem, (ii) a metric with no sample in the window that nothing provides or exempts draws a Bug",
 		Assumptions: []string{
 			"patterns are hours wide and a case takes milliseconds, so wall-clock drift cannot flip a verdict; the window edge is given 10 minutes of slack",
 			"the engine-backed fake API (handler, JSON encoding, storage) is trusted",
@@ -351,6 +363,7 @@ func main() {
 		Spaces: []*explore.Space{
 			{Name: "cases", Body: body, Setup: setup, Bound: func(string) int { return -1 }},
 			{Name: "watch", Body: watch, Setup: setup, Bound: func(string) int { return -1 }},
+			{Name: "cleaner", Body: cleaner, Setup: setup, Bound: func(string) int { return -1 }},
 		},
 		BudgetS: func(t string) int {
 			if t == "thorough" {
